@@ -28,12 +28,17 @@ def _u24(n):
 
 
 def enc_ext(ext) -> bytes:
-    """ext: ["sni", host] | ["alpn", [name, ...]] | ["raw", type, hexbody]   (names/hosts are latin-1 strings)"""
+    """ext: ["sni", host] | ["snilist", [[type, name], ...]] | ["alpn", [name, ...]] | ["raw", type, hexbody]
+    (names/hosts are latin-1 strings; "alpn" with [] is an empty ProtocolNameList)"""
     kind = ext[0]
     if kind == "sni":
         host = ext[1].encode("latin-1")
         entry = b"\x00" + _u16(len(host)) + host
         body = _u16(len(entry)) + entry
+        typ = 0
+    elif kind == "snilist":  # ["snilist", [[name_type, name], ...]]: any ServerNameList, also empty / several names
+        lst = b"".join(_u8(t) + _u16(len(n.encode("latin-1"))) + n.encode("latin-1") for t, n in ext[1])
+        body = _u16(len(lst)) + lst
         typ = 0
     elif kind == "alpn":
         plist = b"".join(_u8(len(p.encode("latin-1"))) + p.encode("latin-1") for p in ext[1])
